@@ -29,7 +29,9 @@ def drawn_layout(draw, max_len=50):
 @st.composite
 def model_case(draw, k):
     blocks = draw(universe.script(1, 2, kinds=KINDS))
-    return {"src": "gen", "blocks": blocks, "layouts": [draw(drawn_layout()) for _ in range(k)]}
+    # the relation must hold in every output mode (some attributes, e.g. an index's clustered flag, are only kept by one dialect)
+    mode = draw(st.sampled_from(["sql", "sql"] + universe.MODES))
+    return {"src": "gen", "blocks": blocks, "layouts": [draw(drawn_layout()) for _ in range(k)], "mode": mode}
 
 
 @st.composite
@@ -175,7 +177,9 @@ class C05(Prop):
         out = Outcome()
         ss = self.stmts(case)
         canon = render_script(ss, None)
-        r0 = loader.try_parse(canon)
+        mode = case.get("mode", "sql")
+        out.label("mode:" + mode)
+        r0 = loader.try_parse(canon, output_mode=mode)
         out.parses += 1
         if r0[0] != "ok":
             out.fail("canonical-exception", "%s: %s on %r" % (r0[1], r0[2], canon))
@@ -193,7 +197,7 @@ class C05(Prop):
                 out.nontrivial = True
             if lay.get("crlf"):
                 out.label("crlf")
-            r = loader.try_parse(text)
+            r = loader.try_parse(text, output_mode=mode)
             out.parses += 1
             if r[0] != "ok":
                 out.fail("relayout-exception", "%s: %s\ncanonical=%r\nrelayout =%r" % (r[1], r[2], canon, text))
@@ -201,11 +205,11 @@ class C05(Prop):
                 kwonly = render_script(ss, dict(lay, sep=[])) if lay.get("case") else None
                 which = "layout"
                 if kwonly is not None:
-                    rk = loader.try_parse(kwonly)
+                    rk = loader.try_parse(kwonly, output_mode=mode)
                     out.parses += 1
                     if rk[0] != "ok" or rk[1] != r0[1]:
                         which = "keyword-case"
-                out.fail("relayout-differs:" + which, "canonical=%r\nrelayout =%r\ncanonical result=%r\nrelayout result =%r" % (canon, text, r0[1], r[1]))
+                out.fail("relayout-differs:" + which, "mode=%s canonical=%r\nrelayout =%r\ncanonical result=%r\nrelayout result =%r" % (mode, canon, text, r0[1], r[1]))
         return out
 
     # ---- (b)
